@@ -194,6 +194,9 @@ func (c *LocalReusableWorkflowCache) readCache(key string) (*ReusableWorkflowMet
 }
 
 func (c *LocalReusableWorkflowCache) writeCache(key string, val *ReusableWorkflowMetadata) {
+	if c.cache == nil {
+		return // Null cache which is used when no project was found. It never caches anything
+	}
 	c.mu.Lock()
 	c.cache[key] = val
 	c.mu.Unlock()
